@@ -285,6 +285,20 @@ func runCase(c Case) *ev.Verdict {
 	if constructed && !rejected {
 		v.Fail("C12/invalid-accepted:"+strings.TrimPrefix(c.Class, "constructed:"), "%s %s must be rejected; results %v held=%v", c.Class, c.Text, own, heldNow)
 	}
+	// a mutant may be valid, but one that is malformed by the model's static rules (the rules
+	// C01-C03 hold every operation to: zero/missing key or group, empty group, zero member
+	// index, label out of range, unknown group network instance, nil entry) must be rejected
+	// whatever else it carries - never programmed and never held
+	if !constructed && !rejected && reachesRIB && op.GetOp() != spb.AFTOperation_DELETE {
+		if val, why := model.New("DEFAULT", hgen.NIs[1:], true).StaticAdd(ni, op, false); val == model.MustFail {
+			v.Class("mutant-statically-invalid")
+			v.Fail("C12/invalid-accepted:static:"+strings.ReplaceAll(why, " ", "-"), "%s %s is malformed (%s) and must be rejected; results %v held=%v", c.Class, c.Text, why, own, heldNow)
+		}
+	} else if !constructed && rejected && reachesRIB && op.GetOp() != spb.AFTOperation_DELETE {
+		if val, _ := model.New("DEFAULT", hgen.NIs[1:], true).StaticAdd(ni, op, false); val == model.MustFail {
+			v.Class("mutant-statically-invalid")
+		}
+	}
 	sameState := len(obs.Diff(before.st, after.st)) == 0 && fmt.Sprint(before.held) == fmt.Sprint(after.held) && before.counts == after.counts
 	if rejected && !sameState {
 		d := obs.Diff(before.st, after.st)
@@ -480,6 +494,23 @@ func constructed() map[string]*spb.AFTOperation {
 	out["zero-group-v4"] = base(&gen.Op{NI: D, Kind: gen.V4, Act: gen.ADD, Key: "1.0.0.0/8", Meta: []byte{1}})
 	out["zero-group-v6"] = base(&gen.Op{NI: D, Kind: gen.V6, Act: gen.ADD, Key: "2001:db8::/32", Meta: []byte{1}})
 	out["zero-group-mpls"] = base(&gen.Op{NI: D, Kind: gen.MPLS, Act: gen.ADD, Key: "100", Meta: []byte{1}})
+	// the same defects on operations that are otherwise fully populated: every other field
+	// valid, in particular a next-hop-group network instance that exists (own and other)
+	for _, gni := range []string{D, "VRF-A"} {
+		for _, act := range []string{gen.ADD, gen.REPLACE} {
+			sfx := "-gni-" + gni + "-" + act
+			out["zero-group-v4"+sfx] = base(&gen.Op{NI: D, Kind: gen.V4, Act: act, Key: "1.0.0.0/8", GroupNI: gni, Meta: []byte{1}})
+			out["zero-group-v6"+sfx] = base(&gen.Op{NI: D, Kind: gen.V6, Act: act, Key: "2001:db8::/32", GroupNI: gni})
+			out["zero-group-mpls"+sfx] = base(&gen.Op{NI: D, Kind: gen.MPLS, Act: act, Key: "100", GroupNI: gni, Meta: []byte{2}})
+			out["zero-group-v4-in-vrf"+sfx] = base(&gen.Op{NI: "VRF-A", Kind: gen.V4, Act: act, Key: "1.0.0.0/8", GroupNI: gni})
+		}
+	}
+	out["empty-group-with-color"] = base(&gen.Op{NI: D, Kind: gen.NHG, Act: gen.ADD, Key: "1", Backup: gen.U(2), Color: gen.U(3)})
+	out["zero-member-index-only"] = base(&gen.Op{NI: D, Kind: gen.NHG, Act: gen.ADD, Key: "1", Hops: []gen.Hop{{Index: 0, Weight: gen.U(2)}}})
+	out["zero-member-index-replace"] = base(&gen.Op{NI: D, Kind: gen.NHG, Act: gen.REPLACE, Key: "1", Hops: []gen.Hop{{Index: 0}, {Index: 1}}})
+	out["zero-nh-index-rich"] = base(&gen.Op{NI: "VRF-A", Kind: gen.NH, Act: gen.ADD, Key: "0", IP: "192.0.2.1", MAC: "00:00:5e:00:53:01", Intf: "eth0"})
+	out["unknown-group-ni-v6"] = base(&gen.Op{NI: D, Kind: gen.V6, Act: gen.ADD, Key: "2001:db8::/32", Group: 1, GroupNI: "NO-SUCH-NI"})
+	out["unknown-group-ni-v4-replace"] = base(&gen.Op{NI: D, Kind: gen.V4, Act: gen.REPLACE, Key: "1.0.0.0/8", Group: 1, GroupNI: "NO-SUCH-NI"})
 	out["empty-group"] = base(&gen.Op{NI: D, Kind: gen.NHG, Act: gen.ADD, Key: "1", Backup: gen.U(2)})
 	out["zero-member-index"] = base(&gen.Op{NI: D, Kind: gen.NHG, Act: gen.ADD, Key: "1", Hops: []gen.Hop{{Index: 1}, {Index: 0}}})
 	out["invalid-prefix-v4-mask"] = base(&gen.Op{NI: D, Kind: gen.V4, Act: gen.ADD, Key: "1.1.1.1/33", Group: 1})
